@@ -160,6 +160,7 @@ class Repo:
         mods = base.get('__modules__', {})
         funcs = base.get('__funcs__', {})
         n = 0
+        changed = []
         for m in self.modules.values():
             if getattr(m, 'shared', False):
                 continue
@@ -167,11 +168,31 @@ class Repo:
             if rel not in funcs or \
                     mods.get(rel) == hashlib.sha1(m.src.encode()).hexdigest():
                 continue
+            changed.append(m)
+        # new methods that other changed modules may call on an object
+        taken = set()
+        for qs in funcs.values():
+            for q in qs:
+                taken.add(q.rsplit('.', 1)[-1])
+        foreign = {}
+        if len(changed) > 1:
+            for m in changed:
+                try:
+                    pm_ = alpha.portable_new_methods(
+                        m.tree, m.name, set(funcs[m.rel()]), taken)
+                except Exception:
+                    pm_ = []
+                for other in changed:
+                    if other is not m and pm_:
+                        foreign.setdefault(other.name, []).extend(pm_)
+        for m in changed:
+            rel = m.rel()
             others = [x.src for x in self.modules.values() if x is not m]
             nested = base.get('__nested__', {}).get(rel)
             n += alpha.undo_extractions(
                 m.tree, m.name, set(funcs[rel]), others, base,
-                set(nested) if nested is not None else None)
+                set(nested) if nested is not None else None,
+                foreign.get(m.name, ()))
         return n
 
     def new_function_names(self) -> Dict[str, List[str]]:
